@@ -461,7 +461,7 @@ static Result run_c12(const Case &c) {
         for (auto &x : set) {
             uint32_t idx = get32(&x[ref::O_IDX]);
             bool bad = idx >= (uint32_t)ni || x[ref::O_BEID] != (uint8_t)gi.backend ||
-                       (gi.backend != ref::B_NULL && get32(&x[ref::O_BEVER]) != ref::backend_version(gi.backend)) || x[ref::O_MISM] == 1;
+                       !ref::accepts_hook()(gi.backend, get32(&x[ref::O_BEVER])) || x[ref::O_MISM] == 1;
             if (bad) want_bad = true;
         }
         std::vector<const std::vector<uint8_t> *> frs;
